@@ -1,3 +1,20 @@
-/- C08 — property theorems over Qfx.Model.Session (placeholder being filled; see checklist at the end) -/
+/- C08 — connection shape. First theorems; the trace-shape invariant over all histories is in progress (DESIGN §5 C08). -/
 import Qfx.Spec.Session
-open Qfx Qfx.Sess Qfx.SessSpec
+open Qfx Qfx.Sess
+
+/-- nothing is written without a connection: the queue is kept -/
+theorem C08_no_write_without_connection (s : Sess) (h : s.out = false) : sendQueued s = s := by
+  simp [sendQueued, h]
+
+/-- while not logged on, application sends are only queued (numbered, persisted), never written -/
+theorem C08_send_not_logged_on_queues (s : Sess) (m : OutMsg) (h : s.st.loggedOn = false) : sendInReplyTo s m = queueForSend s m := by
+  simp [sendInReplyTo, h]
+
+/-- SendAppMessages outside a logon drops the wire queue -/
+theorem C08_replay_outside_logon_drops_queue (s : Sess) (m : OutMsg) (h : s.st.loggedOn = false) :
+    enqueueAndSend s m = sendQueued ((s.setToSend []).setToSend ((s.setToSend []).toSend ++ [m])) := by
+  simp [enqueueAndSend, h]
+
+/-- in the Logon state anything but a Logon disconnects silently -/
+theorem C08_logon_state_only_logon (s : Sess) (m : InMsg) (h : kindOf m ≠ "A") : logonFixMsgIn s m = (s, .latent) := by
+  simp [logonFixMsgIn, h]
